@@ -44,7 +44,8 @@ impl Node {
     {
         let key_size = K::LEN as usize;
         let mut l = 0i32;
-        let mut r: i32 = (buf.len() / key_size - 1) as i32;
+        // (a node may hold no key at all - one child only - when the fan-out is 2: then r = -1 and the search is empty)
+        let mut r: i32 = (buf.len() / key_size) as i32 - 1;
         while l <= r {
             let m = (l + r) / 2;
             let offset = m as usize * key_size;
